@@ -232,7 +232,10 @@ class GriffeLoader:
             self.expand_wildcards(wildcards_module, external=external)
 
         load_failures: set[str] = set()
-        while unresolved and unresolved != prev_unresolved and iteration < max_iterations:  # type: ignore[operator]
+        loaded = -1  # Number of packages in the collection when the previous iteration started.
+        # Side-loading a package during an iteration is progress too, even if the unresolved set stayed the same.
+        while unresolved and (unresolved != prev_unresolved or len(collection) != loaded) and iteration < max_iterations:  # type: ignore[operator]
+            loaded = len(collection)
             prev_unresolved = unresolved - {"0"}
             unresolved = set()
             resolved: set[str] = set()
